@@ -82,6 +82,15 @@ impl LeaderClient {
     #[verifier::external_body]
     pub fn retrieve_epoch_settings_or_fail(&self) -> (r: Result<LeaderEpochSettings, SignerRegistrationError>) ensures r is Ok ==> leader_settings(self) == Some(r->Ok_0) { unimplemented!() }
 }
+impl LeaderClient {
+    /// retrieve_epoch_settings().await .with_context(..).map_err(..)?   (fetch failed -> error; None = the leader has no settings yet)
+    #[verifier::external_body]
+    pub fn retrieve_epoch_settings_opt(&self) -> (r: Result<Option<LeaderEpochSettings>, SignerRegistrationError>) ensures r is Ok ==> r->Ok_0 == leader_settings(self) { unimplemented!() }
+}
+/// `.is_some_and(|leader_epoch_settings| epoch == leader_epoch_settings.epoch)`
+fn settings_epoch_is(o: Option<LeaderEpochSettings>, epoch: Epoch) -> (r: bool) ensures r == (o is Some && o->Some_0.epoch.0 == epoch.0) {
+    match o { Some(s) => s.epoch.0 == epoch.0, None => false }
+}
 impl StakeStore {
     /// get_stakes(e).await .with_context(..).map_err(Store)? .with_context(..).map_err(Store)?
     #[verifier::external_body]
@@ -141,6 +150,14 @@ fn synchronize_all_signers(&self) -> (ret: Result<(), SignerRegistrationError>)
             ?;
 
         Ok(())
+    }
+// ---- end of extracted text ----
+
+// ---- extracted from mithril-aggregator/src/services/signer_registration/follower.rs:119 (fn can_synchronize_signers) ----
+fn can_synchronize_signers(&self, epoch: Epoch) -> (ret: Result<bool, SignerRegistrationError>)
+    ensures ret is Ok ==> ret->Ok_0 == (leader_settings(&self.leader_aggregator_client) is Some && leader_settings(&self.leader_aggregator_client)->Some_0.epoch.0 == epoch.0)
+{
+        Ok(settings_epoch_is(self.leader_aggregator_client.retrieve_epoch_settings_opt()?, epoch))
     }
 // ---- end of extracted text ----
 
